@@ -1,4 +1,10 @@
 //verif:dest internal/verifh/memfs/memfs.go
+//verif:replace@C14g os.OpenFile = OpenFile
+//verif:replace@C14g os.Open = Open
+//verif:replace@C14g os.Rename = Rename
+//verif:replace@C14g os.Remove = Remove
+//verif:replace@C14g (*os.File).Read = Read
+//verif:replace@C14g (*os.File).Close = Close
 //verif:replace@C08e os.OpenFile = OpenFile
 //verif:replace@C08e os.Open = Open
 //verif:replace@C08e os.Rename = Rename
